@@ -33,7 +33,10 @@ THEOREMS = [_T + n for n in [
     "C05_centroid_point", "C05_centroid_time_stamp", "C05_centroid_box",
     # follow-up: histories and call forms
     "C05_history_pure", "C05_history_poison", "C05_history_revisit", "C05_call_forms", "C05_call_forms_unary",
-    "C05_sig_shape"]]
+    "C05_sig_shape",
+    # follow-up (wave 5): the anchor points as binary64 values
+    "C05_points_selection", "C05_points_exact_mid", "C05_midpoint_rounded", "C05_points_rounded",
+    "C05_anchor_holds_sound", "C05_anchor_holds_model"]]
 LEVEL_TEXT = ("Lean theorems over the model: compute_bounds is exactly (min time, min freq, max time, max freq) over the "
               "coordinates (unique; time-only types over [0, MAX_FREQUENCY]; polygons: holes inside the shell envelope), it is "
               "the envelope of the modelled shapely conversion, the conversion is the shapely constructor call each "
@@ -54,7 +57,13 @@ LEVEL_TEXT = ("Lean theorems over the model: compute_bounds is exactly (min time
               "that call (`C05_history_pure`, `_poison`, `_revisit`), so every step of a run of the real code is judged on its "
               "own; Python's binding of positional / keyword arguments is modelled (`bindCall`) and all call forms of the four "
               "functions are proved to denote the same (geometry, position) (`C05_call_forms`, `_unary`, `C05_sig_shape`), the "
-              "parameter lists being re-read by introspection on every run (`sigOK` by `decide`).")
+              "parameter lists being re-read by introspection on every run (`sigOK` by `decide`). Wave 5: the anchor points "
+              "at the level of binary64 values: corner / edge components are selections of the bounds whatever the midpoint "
+              "values are (`C05_points_selection`, `pointAtM` = `pointAt` at the exact midpoints: `C05_points_exact_mid`), and "
+              "for every monotone rounding function that leaves the bounds alone the rounded midpoint stays inside them "
+              "(`C05_midpoint_rounded`, `C05_points_rounded`); the monitor `holdsAnchor` evaluated on the observed floats accepts "
+              "only points inside the bounds whose corner / edge components are the bounds bit for bit "
+              "(`C05_anchor_holds_sound`) and accepts the model's own answer (`C05_anchor_holds_model`).")
 LEVEL_NOTE = ("Trusted: Lean kernel, symbolic tracer (ordered-field semantics; shapely constructors / compute_bounds / "
               "geometry_to_shapely / Feature replaced by recording or symbolic stand-ins, by identity of the objects), shapely "
               "`bounds` as min/max of the shell vertices, shapely ring closure, GEOS segment length as sqrt(dx^2+dy^2) in "
@@ -68,6 +77,9 @@ LEVEL_NOTE = ("Trusted: Lean kernel, symbolic tracer (ordered-field semantics; s
               "are generator-bounded differential runs that validate the model against the code; they decide nothing by "
               "themselves. Trusted in addition: Python's argument binding as `bindCall` states it; a call without position "
               "is held to the default the signature declares (the documented 'bottom-left' when it declares none). "
+              "The symbolic ties are ordered-field statements: `start + 1.0 * (end - start)` traces to `end`; whether the code "
+              "*selects* a bound or computes it is observed only by the float-level monitor `holds_anchor` on decimal "
+              "geometries (generator-bounded; half of them rejection-sampled so that `a + (b - a) != b` or `b - (b - a) != a`). "
               "Model tied to the code by regenerated obligations and generator-bounded correspondence.")
 TECHNIQUE = ("Lean 4 proof over model; symbolic-trace equality obligations and table obligations regenerated from source; "
              "differential correspondence with Lean-evaluated property statements on the real I/O")
@@ -85,7 +97,11 @@ RULE = ("geometries of all nine types (random on dyadic grids of several scales,
         "overwritten) and re-read at the end, 9 types x 6 calls poison sweep; every special and random geometry lifted to its "
         "sibling types; extents 2^-7 ... 2^-40 at five time and four frequency offsets and bounds decided at the last bits; "
         "16 / 17 / 256 / 257 / 1023 / 1024 / 1100 vertices and 17 / 300 parts; all 121 points of a 0.01 s and a 0.1 Hz lattice; "
-        "every reported replay is confirmed to fail as the only thing a fresh process does; "
+        "every reported replay is confirmed to fail as the only thing a fresh process does; wave 5: decimal geometries "
+        "(milliseconds, tenths / hundredths of Hz, arbitrary binary64 values; all nine types, bounds pairs rejection-sampled "
+        "for inexact `end - start`) x the nine bounds positions judged on the float values (corner / edge components equal "
+        "to the bound bit for bit, every component inside the bounds, midpoints within 2 ulp of the correctly rounded "
+        "(a + b) / 2) x centroid / point_on_surface inside the bounds; "
         "non-trivial = the implementation returned a value; distinct = distinct (operation, input)")
 TRUSTED = ["shapely `bounds` = min/max over the vertices of the converted shape (polygon: shell)",
            "shapely LinearRing closure rule (open ring or closed 3-vertex ring gets its first vertex appended); "
@@ -111,7 +127,11 @@ NOT_COMPARED = ["error messages (only the error class)",
                 "centroid values of multi-ring shapes with a self-intersecting ring (orientation convention of GEOS not modelled)",
                 "polygons with a hole outside the shell envelope (OGC-invalid): bounds compared with the model "
                 "(shell only, as GEOS does), the all-coordinates clause is not asserted",
-                "the last 2 ulp of differences / half-sums off the dyadic grid (re-associated formulas round differently)",
+                "the last 2 ulp of differences / half-sums off the dyadic grid (re-associated formulas round differently): a "
+                "midpoint component is pinned to `inside [lo, hi] as floats, within 2 ulp of the correctly rounded (lo + hi) / 2 "
+                "and within 2^-50 (relative to the larger bound) of the exact midpoint`, not to the bit pattern of "
+                "`(lo + hi) / 2` (the unchanged code is bit-exact on 10^5 decimal geometries, but `lo + (hi - lo) / 2` is an "
+                "equally good midpoint and differs in the last bit); corner / edge components ARE pinned bit for bit",
                 "geometry-like objects that are not instances of the data model's geometry classes (duck-typed `.type` / "
                 "`.coordinates`: a dispatch by isinstance is a legitimate implementation); instances of subclasses are used",
                 "unvalidated coordinates the code does not accept today (numeric strings, numpy arrays put in by assignment)",
@@ -290,6 +310,50 @@ def _holds_point(ctx, inp, io):
     r = ctx.model("inside", {"g": inp["g"], "p": io["val"], "tol": None})
     if r.get("val") is not True:
         return "named position outside the bounds"
+    return None
+
+
+ANCHOR_TOL = "1/1125899906842624"   # 2^-50, relative to the larger bound: how far a binary64 midpoint may be from (a+b)/2
+_MID_T = ("center", "top-center", "bottom-center")
+_MID_F = ("center", "center-left", "center-right")
+
+
+def _holds_anchor(ctx, inp, io):
+    """wave 5: the anchor-point clause judged on the float values themselves (Lean `holdsAnchor`, meaning fixed by
+    C05_anchor_holds_sound / _model): inside the bounds of the coordinates as floats, corner / edge components equal
+    to the bound bit for bit, midpoint components inside [lo, hi] and within 2^-50 (relative) of (lo + hi) / 2"""
+    if inp["pos"] not in BOUNDS_POS:
+        return None
+    if "val" not in io:
+        return "get_geometry_point raised for a named position"
+    r = ctx.model("holds_anchor", {"g": inp["g"], "pos": inp["pos"], "p": io["val"], "tol": ANCHOR_TOL})
+    if r.get("val") is True:
+        return None
+    b = ctx.model("bounds", {"g": inp["g"]}).get("val")
+    why = "a corner / edge component is not the bound itself, or a midpoint is not the midpoint"
+    try:
+        x, y = frac(io["val"][0]), frac(io["val"][1])
+        st, lo, en, hi = (frac(v) for v in b)
+        if not (st <= x <= en and lo <= y <= hi):
+            why = "the point lies outside the bounds of the coordinates"
+    except Exception:  # noqa: BLE001
+        pass
+    return (f"anchor point {inp['pos']} = ({_f(io['val'][0])!r}, {_f(io['val'][1])!r}) does not agree with the bounds "
+            f"{[_f(v) for v in b] if b else b!r}: {why}")
+
+
+def _cmp_anchor(inp, io, mo):
+    """corner / edge components: the very float (exact equality with the model, which selects a bound);
+    midpoint components: one correct rounding of (a + b) / 2, or within 2 ulp of it (`a + (b - a) / 2` rounds twice)"""
+    if "val" not in io or "val" not in mo:
+        return None if io == mo else "implementation and model disagree"
+    mids = (inp["pos"] in _MID_T, inp["pos"] in _MID_F)
+    for x, y, mid, axis in zip(io["val"], mo["val"], mids, ("time", "frequency")):
+        if mid:
+            if not _num_eq_round_once(x, y):
+                return f"{axis} {x} is not the correctly rounded midpoint {y}"
+        elif x != y:
+            return f"{axis} {_f(x)!r} is not the bound {_f(y)!r} itself"
     return None
 
 
@@ -1002,6 +1066,8 @@ OPS = {
     "features_free": Op("features_free", _impl_features, compare=_cmp_features_free, mode="round-once",
                         model_op="features"),
     "point_free": Op("point_free", _impl_point, compare=_cmp_point_free, mode="round-once", model_op="point"),
+    "anchor_free": Op("anchor_free", _impl_point, compare=_cmp_anchor, holds=_safe(_holds_anchor), mode="round-once",
+                      model_op="point"),
     "lib_point": Op("lib_point", _impl_lib_point, to_model=_to_model_lib, holds=_safe(_holds_lib_point),
                     mode="tolerance", model_op="point"),
     # review additions
@@ -1639,6 +1705,134 @@ def free_geometries(rng, n):
     return out
 
 
+def decimal_geometries(rng, n):
+    """wave 5: ordinary decimal coordinates (milliseconds, tenths of Hz, ...) and arbitrary binary64 values of all nine
+    types: almost no sum or difference of two coordinates is exact, and `end > 2 * start` half of the time (then
+    `end - start` is inexact and `start + (end - start)` need not be `end`)"""
+    def t():
+        k = rng.randrange(7)
+        if k == 0:
+            return round(rng.uniform(0, 100), 3)
+        if k == 1:
+            return round(rng.uniform(0, 3600), 3)
+        if k == 2:
+            return round(rng.uniform(0, 10), 2)
+        if k == 3:
+            return round(rng.uniform(0, 1), 6)
+        if k == 4:
+            return rng.uniform(0, 100)
+        if k == 5:
+            return round(rng.uniform(0, 100000), 1)
+        return round(rng.uniform(0, 30), 4)
+
+    def f():
+        k = rng.randrange(6)
+        if k == 0:
+            return round(rng.uniform(0, 24000), 1)
+        if k == 1:
+            return round(rng.uniform(0, 250000), 1)
+        if k == 2:
+            return round(rng.uniform(0, 12000), 2)
+        if k == 3:
+            return rng.uniform(0, M)
+        if k == 4:
+            return round(rng.uniform(0, 100), 3)
+        return round(rng.uniform(0, float(M)), 1)
+
+    def pair(draw):
+        """a sorted pair of drawn values; half of the time rejection-sampled so that `a + (b - a) != b` in binary64 (about
+        3 % of the decimal pairs), a quarter of the time so that `b - (b - a) != a` (about 30 %)"""
+        a, b = sorted([draw(), draw()])
+        u = rng.random()
+        if u < 0.75:
+            for _ in range(200):
+                if (a + (b - a) != b) if u < 0.5 else (b - (b - a) != a):
+                    break
+                a, b = sorted([draw(), draw()])
+        return a, b
+
+    def between(a, b, digits):
+        return min(b, max(a, round(rng.uniform(a, b), digits)))
+
+    def cloud(k):
+        """k vertices whose extreme times / frequencies are a drawn pair each"""
+        (a, b), (l, h) = pair(t), pair(f)
+        ts = [a, b] + [between(a, b, 3) for _ in range(k - 2)]
+        fs = [l, h] + [between(l, h, 1) for _ in range(k - 2)]
+        rng.shuffle(ts)
+        rng.shuffle(fs)
+        return [[x, y] for x, y in zip(ts[:k], fs[:k])]
+
+    def poly():
+        (a, b), (l, h) = pair(t), pair(f)
+        if rng.random() < 0.5:
+            return [[[a, l], [b, between(l, h, 1)], [between(a, b, 3), h]]]
+        ring = [[a, l], [b, l], [b, h], [a, h]]
+        if b > a and h > l and rng.random() < 0.6:
+            q = [a + (b - a) * u for u in (0.25, 0.5, 0.75)]
+            r = [l + (h - l) * u for u in (0.25, 0.75)]
+            return [ring, [[q[0], r[0]], [q[2], r[0]], [q[1], r[1]]]]
+        return [ring]
+    out = []
+    for i in range(n):
+        ty = gen_geom.TYPES[i % len(gen_geom.TYPES)]
+        if ty == "TimeStamp":
+            c = t()
+        elif ty == "TimeInterval":
+            c = list(pair(t))
+        elif ty == "Point":
+            c = [t(), f()]
+        elif ty == "BoundingBox":
+            (a, b), (l, h) = pair(t), pair(f)
+            c = [a, l, b, h]
+        elif ty in ("LineString", "MultiPoint"):
+            c = cloud(rng.randint(1 if ty == "MultiPoint" else 2, 5))
+        elif ty == "MultiLineString":
+            c = [sorted(cloud(rng.randint(2, 4))) for _ in range(rng.randint(1, 3))]   # the data model wants lines time-ordered
+        elif ty == "Polygon":
+            c = poly()
+        else:
+            c = [poly() for _ in range(rng.randint(1, 3))]
+        g = _try_norm({"type": ty, "coordinates": gen_geom._enc_f(c)})
+        if g is not None:
+            out.append(g)
+    return out
+
+
+def decimal_fixed():
+    """hand-picked decimal geometries: `8.936 + 1.0 * (81.492 - 8.936)` is one ulp above 81.492, same on the
+    frequency axis for [1200.7, 9077.3]; every type carries such a pair"""
+    gs = [
+        ("TimeInterval", [8.936, 81.492]), ("BoundingBox", [8.936, 1200.7, 81.492, 9077.3]),
+        ("BoundingBox", [5.677, 823.1, 92.485, 2648.0]), ("BoundingBox", [0.1, 0.3, 0.7, 1.1]),
+        ("LineString", [[8.936, 9077.3], [20.5, 1200.7], [81.492, 2500.1]]),
+        ("MultiPoint", [[8.936, 1200.7], [81.492, 9077.3]]),
+        ("MultiLineString", [[[8.936, 1200.7], [40.0, 900.0]], [[30.0, 700.0], [81.492, 9077.3]]]),
+        ("Polygon", [[[8.936, 1200.7], [81.492, 1200.7], [81.492, 9077.3], [8.936, 9077.3]],
+                     [[12.0, 2000.0], [14.0, 2000.0], [13.0, 2500.0]]]),
+        ("MultiPolygon", [[[[8.936, 1200.7], [9.0, 1300.2], [10.0, 1200.7]]],
+                          [[[50.0, 3000.3], [81.492, 4000.4], [60.0, 9077.3]]]]),
+        ("TimeStamp", 81.492), ("Point", [81.492, 9077.3]),
+        ("BoundingBox", [8.936, 1200.7, 8.936, 1200.7]), ("TimeInterval", [81.492, 81.492]),
+    ]
+    return [g for g in (_try_norm({"type": ty, "coordinates": gen_geom._enc_f(c)}) for ty, c in gs) if g is not None]
+
+
+def _anchor_stage(ctx):
+    """wave 5 (seeded C05-10): the nine bounds positions of decimal geometries judged on the float values
+    (corner / edge components are the bounds bit for bit, every component inside the bounds, midpoints one rounding
+    of (a + b) / 2 up to 2 ulp); centroid / point_on_surface of the same geometries by the inside-the-bounds monitor"""
+    geoms = _dedupe(decimal_fixed() + decimal_geometries(ctx.rng, ctx.budget(720, 9000)))
+    _tally_geoms(ctx, geoms, "decimal")
+    ctx.run_cases(OPS["bounds"], [{"g": g} for g in geoms])
+    fs = ctx.run_cases(OPS["anchor_free"], _with_positions(geoms, BOUNDS_POS))
+    ctx.run_cases(OPS["lib_point"], _with_positions(geoms[: max(40, len(geoms) // 3)], LIB_POS))
+    inexact = sum(1 for g, b in zip(geoms, ctx.model_many("bounds", [{"g": g} for g in geoms]))
+                  if "val" in b and _f(b["val"][0]) + (_f(b["val"][2]) - _f(b["val"][0])) != _f(b["val"][2]))
+    ctx.tally("decimal:start+(end-start)!=end", inexact)
+    return fs
+
+
 def invalid_polygons(rng, n):
     """polygons the data model accepts although a ring crosses itself (bow ties, figure eights), on the
     grid: inside the property's quantifier ("every geometry"), outside OGC validity"""
@@ -2026,6 +2220,7 @@ def run(ctx):
     _timed(ctx, "numeric-boundaries", _boundary_stage, ctx)
     _timed(ctx, "size-thresholds", _size_stage, ctx)
     _timed(ctx, "non-dyadic-lattice", _lattice_stage, ctx)
+    _timed(ctx, "decimal-anchor-points", _anchor_stage, ctx)
     _timed(ctx, "call-histories", _call_history_stage, ctx)      # last: the only stage that poisons results
     ctx.stage("verify-replays", _verify_replays, ctx)
 
